@@ -104,6 +104,10 @@ pub fn parse_forest(lines: &[String], prefix: &str) -> Result<Forest, String> {
 pub fn forest_lines(f: &Forest, prefix: &str) -> Vec<String> {
     let mut out = Vec::new();
     let mut ctx = RefCtx::new();
+    // Ref values are the synthetic refs of their labels: print exactly those labels
+    for l in 1..=(f.nodes.iter().map(|n| n.label).max().unwrap_or(0) + 64) {
+        ctx.bind(l, val::synthetic_ref(l));
+    }
     for (k, v) in &f.opts {
         out.push(format!("{prefix}opt {k} {v}"));
     }
